@@ -21,7 +21,12 @@ OBLIGATIONS = [
     "KafVerif.C03.read_only_caches",
 ]
 ASSUMPTIONS = [
-    "S3 is the in-memory client (atomic whole-object put, read-after-write, clamped range reads); upload failures are C01/C05's subject and are not generated",
+    "S3 is the in-memory client (atomic whole-object put, read-after-write, clamped range reads); upload failures are C01/C05's subject and are not generated; "
+    "object loss (a segment's index object deleted or corrupted, a segment object deleted) is generated only together with a restart (the data of a lost/orphaned "
+    "segment is then outside the reference log); repeated loss+restart rounds are covered by the correspondence run and the monitor, the theorems cover one round",
+    "freshness of returned record sets: every byte slice PartitionLog.Read hands out is a fresh allocation that nothing writes to afterwards (modelled as a heap of "
+    "hand-outs in Model/PLogHandout.lean: theorem handouts_stable for the fresh-copy read path, witness shared_buffer_unstable for a reused per-partition buffer); "
+    "validated on the real code by the stability run: every returned slice is kept with a private copy and re-compared after every later op, incl. two concurrent readers (read2)",
     "the segment cache returns the bytes stored under (topic, partition, base) (C09) and committed segment keys are written once",
     "segment header (32 bytes) and footer (16 bytes) contents are not modelled (zero bytes): no read may return them; CRC32 and creation time are outside the model",
     "prefetch goroutines only warm the cache (ReadAheadSegments=0 in the correspondence runs; a separate monitor-only stream runs with read-ahead on)",
@@ -190,7 +195,11 @@ class Gen:
                     m = max(1, span + r.choice([-1, 0, 1, -12, 5]))
                 else:
                     m = r.choice(MAXBYTES)
-                ops.append(pfx(k) + "read %d %d" % (o, m))
+                if r.chance(1, 7):   # two fetches of the partition in flight at once
+                    o2 = r.choice([a for a, _ in bs] + [z for _, z in bs]) if bs else o
+                    ops.append(pfx(k) + "read2 %d %d %d %d" % (o, m, o2, r.choice([m, 61, 70, 1000, 100000])))
+                else:
+                    ops.append(pfx(k) + "read %d %d" % (o, m))
         if gated is not None:
             release()
         return ops
@@ -234,6 +243,114 @@ def xpart_ops(ck, ncases):
     return ops
 
 
+def holes_ops(ck, ncases):
+    """Object loss + restart: 3-5 committed segments, then the index object of a segment (mostly a MIDDLE one) is deleted or
+    corrupted, or a segment object is deleted, and the log restarts at a store offset at or below the first index-less
+    segment (RestoreFromS3 skips it as orphaned; a later store offset makes the restore fail - generated rarely).  The restored
+    segment list has a hole; reads at every boundary offset of every original segment and batch (in, before and after the
+    hole), a tail appended after the restart, a second round of loss."""
+    ops = []
+    for c in range(ncases):
+        r = ck.rng.fork()
+        g = Gen(r.fork(), malformed=False)
+        iv = r.choice([1, 1, 2, 3, 100, 100])
+        start = r.choice([0, 0, 0, 7, 2 ** 33])
+        ops.append("new %d %d %d" % (iv, c % 2, start))
+        nxt = start
+        segs = []            # registered segments: (base, last, [(first, last, bytes) per batch])
+        everything = []      # every segment ever written (read targets)
+        marks = [start]
+        orphans = set()      # bases of S3 segment objects without a usable index
+        tail = []
+
+        def add_batch():
+            nonlocal nxt
+            hx = g.batch_hex(0, False)
+            b = bytes.fromhex(hx)
+            lod = struct.unpack(">i", b[23:27])[0]
+            lay = (nxt, nxt + lod, len(b))
+            nxt += lod + 1
+            ops.append("append " + hx)
+            return lay
+
+        def add_seg():
+            base = nxt
+            lay = tail + [add_batch() for _ in range(r.range(1, 3))]
+            del tail[:]
+            base = lay[0][0]
+            ops.append("flush")
+            segs.append((base, nxt - 1, lay))
+            everything.append(segs[-1])
+            orphans.discard(base)
+            marks.append(nxt)
+
+        def reads():
+            pts = set()
+            for (base, last, lay) in everything + ([(tail[0][0], tail[-1][1], tail)] if tail else []):
+                pts.update([base - 1, base, base + 1, last - 1, last, last + 1, (base + last) // 2])
+                for (a, z, ln) in lay:
+                    pts.update([a, z])
+            pts.update([start - 1, start, nxt - 1, nxt, nxt + 1])
+            sizes = sorted(set(ln for sg in everything for (_, _, ln) in sg[2]))
+            pts = sorted(pts)
+            for o in pts:
+                for m in sorted(set([r.choice([1, 61, 1 << 20]), r.choice(sizes + [70, 0, 200]), r.choice([sizes[0], sizes[-1] + 1, 100000])])):
+                    if r.chance(1, 9):
+                        ops.append("dropcache")
+                    if r.chance(1, 8):
+                        ops.append("read2 %d %d %d %d" % (o, m, r.choice(pts), r.choice([m, 61, 1 << 20])))
+                    else:
+                        ops.append("read %d %d" % (o, m))
+
+        for _ in range(r.range(3, 5)):
+            add_seg()
+        for rnd in range(r.choice([1, 1, 2])):
+            cand = segs[1:-1] if len(segs) > 2 and r.chance(3, 4) else segs
+            gone = set()
+            for _ in range(r.choice([1, 1, 1, 2])):
+                if not cand:
+                    break
+                sg = r.choice(cand)
+                kind = r.choice(["delindex", "delindex", "badindex", "delseg"])
+                ops.append("%s %d" % (kind, sg[0]))
+                if kind == "delseg":
+                    gone.add(sg[0])
+                    orphans.discard(sg[0])
+                elif sg[0] not in gone:
+                    orphans.add(sg[0])
+            if r.chance(1, 5):
+                reads_before = r.chance(1, 2)   # the running log still has the segments registered
+                if reads_before and not gone:
+                    reads()
+            lim = min(orphans) if orphans else nxt
+            okm = [m for m in marks if m <= lim] or [marks[0]]
+            if r.chance(1, 14):
+                st = nxt
+                ops.append("restart")
+            else:
+                st = r.choice(okm[-3:])
+                ops.append("restartat %d" % st)
+            if all(b >= st for b in orphans):
+                segs = [sg for sg in segs if sg[0] not in gone and sg[0] not in orphans]
+                last = segs[-1][1] if segs else -1
+                nxt = last + 1 if last >= st else st
+            else:
+                segs, nxt = [], st
+            del tail[:]
+            marks = [m for m in marks if m <= nxt]
+            if nxt not in marks:
+                marks.append(nxt)
+            x = r.below(4)
+            if x == 0:
+                tail.append(add_batch())
+            elif x == 1:
+                add_seg()
+            reads()
+            if rnd == 0:
+                add_seg()
+    return ops
+
+
 # ----------------------------------------------------------------------------- reference log + monitors
 def split_line(line):
     """'<result> | <dump>' -> (result words, dump dict)"""
@@ -255,7 +372,10 @@ class Ref:
 
     def __init__(self, start):
         self.start = start
-        self.batches = []      # dict(base,last,bytes,durable)
+        self.batches = []      # dict(base,last,bytes,durable[,seg,gone])
+        self.noidx = set()     # bases of S3 segment objects whose index object is lost / corrupt
+        self.dirty = False     # a segment object of the running log was deleted: reads are judged again after the restart
+        self.hw = start        # the published watermark as last reported (store offset of a plain `restart`)
 
     def end(self):
         return self.batches[-1]["last"] + 1 if self.batches else self.start
@@ -317,6 +437,12 @@ def _monitor(ops, out, which):
             continue
         if res[0] in ("panic", "stuck"):
             yield i, "go-panic-or-hang", "operation %r ended with %s" % (op[:60], res[0])
+        if res[0] == "handout-changed":
+            if which in ("C03", "C04"):
+                yield i, "returned-bytes-changed-later", ("the byte slice an earlier Read returned (op line %s) had different contents after "
+                                                          "%r: the record set handed to one fetch is overwritten by later activity on the partition"
+                                                          % (res[1] if len(res) > 1 else "?", " ".join(f)[:60]))
+            continue
         if f[0] == "new":
             if k == 0:
                 refs = {}
@@ -350,67 +476,105 @@ def _monitor(ops, out, which):
                 yield i, "rejected-append-moved-offset", "rejected append changed nextOffset to %s (log ends at %d)" % (d["n"], ref.end() - 1)
             continue
         if f[0] in ("flush", "gate", "release") and res[0] in ("flushed", "gated", "released", "nogate"):
+            fresh = []
             for b in ref.batches:
                 if res[0] == "gated":                 # drained now, durable when the upload is released
                     b["inflight"] = not b["durable"]
                 elif res[0] == "released":
                     if b.get("inflight"):
                         b["durable"], b["inflight"] = True, False
+                        fresh.append(b)
                 else:
+                    if not b["durable"]:
+                        fresh.append(b)
                     b["durable"] = True
+            for b in fresh:                           # one flush = one segment object (.kfs + .index) under the first base
+                b["seg"] = fresh[0]["base"]
+            if fresh:
+                ref.noidx.discard(fresh[0]["base"])
             if which == "C02" and int(d["n"]) != ref.end():
                 yield i, "flush-moved-offset", "flush changed nextOffset to %s" % d["n"]
+            ref.hw = int(d.get("hw", ref.hw))
+            continue
+        if f[0] in ("delindex", "badindex", "delseg") and res[0] == "lost":
+            base = int(f[1])
+            if f[0] == "delseg":
+                for b in ref.batches:
+                    if b.get("seg") == base:
+                        b["gone"] = True
+                        ref.dirty = True
+                ref.noidx.discard(base)
+            elif any(b.get("seg") == base and not b.get("gone") for b in ref.batches):
+                ref.noidx.add(base)
+            continue
+        if f[0] in ("restart", "restartat") and res[0] == "err":
+            refs[k] = None        # the restore failed (a segment below the store offset has no usable index): nothing to serve
             continue
         if f[0] in ("restart", "restartat") and res[0] == "restarted":
-            ref.batches = [b for b in ref.batches if b["durable"]]
+            st = int(f[1]) if f[0] == "restartat" else ref.hw
+            # durable batches survive, except those whose segment object is gone and those of a segment without a
+            # usable index at or beyond the store offset (RestoreFromS3 skips it as orphaned)
+            ref.batches = [b for b in ref.batches if b["durable"] and not b.get("gone")
+                           and not (b.get("seg") in ref.noidx and b["seg"] >= st)]
+            ref.dirty = False
             if which == "C02" and int(d["n"]) != ref.end():
                 yield i, "restart-next-offset", ("after restart nextOffset is %s, the durable log ends at %d"
                                                   % (d["n"], ref.end() - 1))
+            ref.hw = int(d.get("hw", ref.hw))
             continue
-        if f[0] == "read":
-            o, m = int(f[1]), int(f[2])
-            h = ref.holder(o)
-            if res[0] == "data":
-                x = bytes.fromhex(res[1]) if res[1] != "-" else b""
-                if which == "C03":
-                    if h is None:
-                        yield i, "read-past-end-returns-bytes", "read at %d past the log end %d returned %d bytes" % (o, ref.end(), len(x))
-                    ok = any(ref.concat_from(j).startswith(x) for j in range(h, -1, -1)) and len(x) > 0
-                    if not ok:
-                        yield i, "bytes-not-a-run-of-the-log", ("read(%d,%d) returned %d bytes that are not a contiguous run of the "
-                                                                  "acknowledged batches starting at or before the batch holding the offset" % (o, m, len(x)))
-                if which == "C04" and m > 0 and h is not None:
-                    want = ref.batches[h]["bytes"]
-                    n = min(len(x), len(want))
-                    if n == 0 or x[:n] != want[:n]:
-                        got = frames(x)
-                        # known residual: the frame walk of the fixed read path cannot cross a stored batch whose
-                        # length field is not declared (accepted for the repo's own zero-length-field fixtures)
-                        known = False
-                        for j in range(h):
-                            bj = ref.batches[j]["bytes"]
-                            if x[:min(len(x), len(bj))] == bj[:min(len(x), len(bj))] and len(x) > 0 and bj[8:12] == b"\0\0\0\0":
-                                known = True
-                                yield i, KNOWN_UNDECLARED, ("read(%d,%d) stops at the stored batch with base %d whose length field is not declared "
-                                                             "(zero) and does not reach the batch holding the offset (base %d)"
-                                                             % (o, m, ref.batches[j]["base"], ref.batches[h]["base"]))
-                                break
-                        if known:
-                            continue
-                        yield i, "no-progress", ("read(%d,%d) does not start at the batch holding the offset (base %d); returned batches %s"
-                                                   % (o, m, ref.batches[h]["base"], [(g[1], g[1] + g[2]) for g in got][:4]))
-                if which == "C02":
-                    for (pos, base, lod, cnt, flen) in frames(x):
-                        hit = [b for b in ref.batches if b["base"] == base]
-                        if not hit or hit[0]["last"] != base + lod:
-                            yield i, "fetched-frame-not-an-assigned-batch", ("fetched batch with offsets %d..%d was never assigned"
-                                                                               % (base, base + lod))
-            elif res[0] == "oor":
-                if which == "C04" and h is not None:
-                    yield i, "no-progress-oor", "read(%d,%d) below the log end %d answered offset-out-of-range" % (o, m, ref.end())
-            elif res[0] == "err":
-                if which in ("C03", "C04") and h is not None:
-                    yield i, "read-error", "read(%d,%d) failed" % (o, m)
+        if f[0] == "read2" and res[0] == "read2" and len(res) >= 3 and not ref.dirty:
+            for (o, m, r) in ((int(f[1]), int(f[2]), res[1]), (int(f[3]), int(f[4]), res[2])):
+                kind, x = ("data", bytes.fromhex(r[2:]) if r[2:] != "-" else b"") if r.startswith("d:") else (r, b"")
+                if kind == "panic":
+                    yield i, "go-panic-or-hang", "concurrent read(%d,%d) panicked" % (o, m)
+                for v in judge_read(i, which, ref, o, m, kind, x):
+                    yield v
+            continue
+        if f[0] == "read" and not ref.dirty:
+            x = (bytes.fromhex(res[1]) if res[1] != "-" else b"") if res[0] == "data" else b""
+            for v in judge_read(i, which, ref, int(f[1]), int(f[2]), res[0], x):
+                yield v
+
+
+def judge_read(i, which, ref, o, m, kind, x):
+    """one answer of PartitionLog.Read (kind = data|oor|err, x = the returned bytes) against the reference log"""
+    h = ref.holder(o)
+    if kind == "data":
+        if which == "C03":
+            if h is None:
+                yield i, "read-past-end-returns-bytes", "read at %d past the log end %d returned %d bytes" % (o, ref.end(), len(x))
+            ok = h is not None and any(ref.concat_from(j).startswith(x) for j in range(h, -1, -1)) and len(x) > 0
+            if not ok and h is not None:
+                yield i, "bytes-not-a-run-of-the-log", ("read(%d,%d) returned %d bytes that are not a contiguous run of the "
+                                                          "acknowledged batches starting at or before the batch holding the offset" % (o, m, len(x)))
+        if which == "C04" and m > 0 and h is not None:
+            want = ref.batches[h]["bytes"]
+            n = min(len(x), len(want))
+            if n == 0 or x[:n] != want[:n]:
+                got = frames(x)
+                # known residual: the frame walk of the fixed read path cannot cross a stored batch whose
+                # length field is not declared (accepted for the repo's own zero-length-field fixtures)
+                for j in range(h):
+                    bj = ref.batches[j]["bytes"]
+                    if x[:min(len(x), len(bj))] == bj[:min(len(x), len(bj))] and len(x) > 0 and bj[8:12] == b"\0\0\0\0":
+                        yield i, KNOWN_UNDECLARED, ("read(%d,%d) stops at the stored batch with base %d whose length field is not declared "
+                                                     "(zero) and does not reach the batch holding the offset (base %d)"
+                                                     % (o, m, ref.batches[j]["base"], ref.batches[h]["base"]))
+                        return
+                yield i, "no-progress", ("read(%d,%d) does not start at the batch holding the offset (base %d); returned batches %s"
+                                           % (o, m, ref.batches[h]["base"], [(g[1], g[1] + g[2]) for g in got][:4]))
+        if which == "C02":
+            for (pos, base, lod, cnt, flen) in frames(x):
+                hit = [b for b in ref.batches if b["base"] == base]
+                if not hit or hit[0]["last"] != base + lod:
+                    yield i, "fetched-frame-not-an-assigned-batch", ("fetched batch with offsets %d..%d was never assigned"
+                                                                       % (base, base + lod))
+    elif kind == "oor":
+        if which == "C04" and h is not None:
+            yield i, "no-progress-oor", "read(%d,%d) below the log end %d answered offset-out-of-range" % (o, m, ref.end())
+    elif kind == "err":
+        if which in ("C03", "C04") and h is not None:
+            yield i, "read-error", "read(%d,%d) failed" % (o, m)
 
 
 # ----------------------------------------------------------------------------- broker level
@@ -776,7 +940,10 @@ def run(ck):
     bins = ck.build_all()
     if bins is None:
         return
-    ck.cov["rule"] = ("histories of new/append/flush/gate/release/restart/dropcache/read over up to three partition logs sharing S3 and cache, "
+    ck.cov["rule"] = ("hand-out stability: every slice returned by Read is re-compared with a private copy after every later op (also two concurrent readers, read2); "
+                      "holes stream: 3-5 segments, index object of a (mostly middle) segment deleted/corrupted or segment deleted, restart at a stale store offset, "
+                      "reads at every segment/batch boundary in and around the hole; "
+                      "histories of new/append/flush/gate/release/restart/dropcache/read over up to three partition logs sharing S3 and cache, "
                       "index interval in {1,2,3,5,100,0,-2}, cache on/off, generated from VERIF_SEED; a case is non-trivial when a segment was "
                       "committed and a read returned data for an offset that is not the first offset of its segment; distinct = distinct op files; broker stream (handleProduce/handleFetch/brestart, acks in {-1,1,0}, flush-on-ack on/off): "
                       "non-trivial = a fetch returned data and a produce was rejected")
@@ -785,6 +952,7 @@ def run(ck):
     ok = run_streams(ck, bins, "C03", DRIVER, [
         ("histories", "st", storage_ops(ck, ncases, nops)),
         ("xpartition", "st", xpart_ops(ck, 8 if ck.quick() else 80)),
+        ("holes", "st", holes_ops(ck, 7 if ck.quick() else 100)),
         ("broker", "br", broker_ops(ck, 6 if ck.quick() else 60, 60)),
         # prefetch goroutines on (cache contents and therefore the path are scheduling dependent): monitor only
         ("prefetch", "st", prefetch_ops(ck, 6 if ck.quick() else 60, 60), False),
